@@ -777,21 +777,31 @@ def nfNormalize (o : Opts) (s : St) : Bool :=
 def nfLocal (s : St) : Bool := (refMap (· = "schema") s.idx).all fun kv => hasFragmentOnly kv.2
 
 /-- the loop body of `nameInlinedSchemas` does nothing at this key: a `$ref`, a top-level definition,
-    or a schema that is not complex -/
-def nameStepIdle (fc : Facts) (x : Ext) (d : J) (entries : List (String × Bool × J)) (key : String) : Bool :=
+    a schema that is not complex, or a complex schema for which no name can be derived (`Name` then
+    does nothing either: e.g. the body parameter of a path item without operation — known finding D13
+    of C03; a second Flatten finds the same nothing to do, which is all C08 asks for) -/
+def nameStepIdle (fc : Facts) (x : Ext) (d : J) (entries : List (String × Bool × J)) (ops : List (String × OpRef))
+    (key : String) : Bool :=
   match (entries.filter fun e => e.1 = key).getLast? with
   | none => true
   | some e =>
     let node := liveNode d key e.2.2
     if Doc.refStr node ≠ "" ∨ e.2.1 then true
     else match Classify.classify fc (classifyExt x) d classifyFuel [] node with
-      | .ok fl => !Classify.isComplex fl
+      | .ok fl =>
+        !Classify.isComplex fl ||
+          (match namesFromKey x (SortRef.keyParts key) fl ops with
+           | .ok names => names.all (· = "")
+           | _ => false)
       | _ => false
 
-/-- no complex schema is inline (`nameInlinedSchemas` selects nothing) -/
+/-- no complex schema that can be named is inline (`nameInlinedSchemas` does nothing) -/
 def nfNaming (fc : Facts) (x : Ext) (s : St) : Bool :=
-  (SortRef.depthFirst ((Index.mapOf (Index.schemas s.idx)).map (·.1))).all
-    (nameStepIdle fc x s.doc (schemaEntries s.idx))
+  match opRefsByRef x s.idx with
+  | .ok ops =>
+    (SortRef.depthFirst ((Index.mapOf (Index.schemas s.idx)).map (·.1))).all
+      (nameStepIdle fc x s.doc (schemaEntries s.idx) ops)
+  | _ => false
 
 /-- every `$ref` is of the form `#/definitions/<name>` and designates something in the document
     (`namePointers` plans nothing) -/
